@@ -354,6 +354,12 @@ theorem mutexInv_step (hl : cfg.sendLocked = true) (s s' : St) (a : Act)
         have := h2 hac
         rw [hlt hac] at this
         exact absurd (Option.some.inj this) e
+  | extClose t =>
+    obtain ⟨_, rfl⟩ := step_extClose h
+    exact hi.same cfg rfl rfl rfl
+  | swallow t =>
+    obtain ⟨sid, w, hp, _, _, _, _, rfl⟩ := step_swallow h
+    exact hi.move cfg t _ (fun t' => pc_setPc _ _ _ _) rfl rfl (fun _ => by simp [hp, inCS]) (by simp)
 
 theorem mutex_unique {s : St} (hi : MutexInv cfg s) (t t' : Nat)
     (h1 : inCS (s.pc t) = true) (h2 : inCS (s.pc t') = true) : t = t' := by
@@ -633,6 +639,12 @@ theorem bytesInv_step (s s' : St) (a : Act) (hm : MutexInv cfg s)
     exact hi.move bytesOf t _ (fun t' => pc_setPc _ _ _ _) (fun _ => rfl) rfl rfl (fun _ h => h) rfl (nw hp rfl)
   | reconfDialFail t =>
     obtain ⟨hp, rfl⟩ := step_reconfDialFail h
+    exact hi.move bytesOf t _ (fun t' => pc_setPc _ _ _ _) (fun _ => rfl) rfl rfl (fun _ h => h) rfl (nw hp rfl)
+  | extClose t =>
+    obtain ⟨_, rfl⟩ := step_extClose h
+    exact hi.same bytesOf rfl (fun _ => rfl) rfl rfl (fun _ h => h)
+  | swallow t =>
+    obtain ⟨sid, w, hp, _, _, _, _, rfl⟩ := step_swallow h
     exact hi.move bytesOf t _ (fun t' => pc_setPc _ _ _ _) (fun _ => rfl) rfl rfl (fun _ h => h) rfl (nw hp rfl)
 
 end Tcp
